@@ -30,13 +30,16 @@ def genCase : G (List String) := do
           ["pkt nf 0a000001 2055 1700000000000000000 " ++ hexOf d, "expect @res ok", "expect @count " ++ toString k])
   else
     -- k complete records, a partial one (0..47 bytes), header count c ∈ {k-1,k,k+1,30,65535,random}
-    let cm ← below 6
+    let cm ← below 8
     let c ← match cm with
       | 0 => pure (k - 1)
       | 1 => pure k
       | 2 => pure (k + 1)
       | 3 => pure 30
       | 4 => pure 65535
+      -- counts whose product with the record size passes a 16-bit or 32-bit boundary (48·1366 > 2^16)
+      | 5 => pick [1365, 1366, 2731, 4096, 4097, 8192, 32768, 43691, 65534]
+      | 6 => (do pure (1366 + (← below 60000)))
       | _ => range 0 40
     let h ← genHeader c
     let plen ← below 48
